@@ -266,7 +266,7 @@ pub fn exec(input: &str) -> String {
 // ---------------------------------------------------------------------------------- generators
 
 const NS: [u64; 6] = [1, 2, 3, 7, 32, 1028];
-const TS: [u64; 4] = [1, 3, 1_000, 2_500_000];
+const TS: [u64; 7] = [1, 3, 1_000, 1_500, 2_500, 1_000_001, 2_500_000];
 
 fn delay(r: &mut Rng, n: u64, t: u64) -> u64 {
     match r.below(10) {
